@@ -503,6 +503,7 @@ func (t *treeListIterator) Next() bool {
 }
 
 func (t *treeListIterator) start() bool {
+	t.node = nil
 	next := t.list.root
 	for next != nil {
 		t.node = next
